@@ -10,7 +10,14 @@ Line-protocol front end of the C05 model (requests after the leading `C05` field
   environ <perm> <khex:vhex,…>                         → VirtualOS.Environ: the KEY=value lines (hex) in the order returned, the env map visited in order <perm>
   readDir <perm> <pathhex:namehex,…>                   → MockFS.ReadDir: positions (in the request) of the entries in the order returned
   firstFailure <perm> <ok|e<id>,…>                     → id of the failure that is reported, or none
-  overrides <perm> <name=ok|name=bad,…>                → the names whose override is applied (sorted)
+  overrides <perm> <name=ok|name=bad,…>                → the names whose override is applied (sorted); applyOverridesSorted (the loop since its repair)
+  overridesPreFix <perm> <name=ok|name=bad,…>          → the same for the loop before its repair (finding C05-overrides-abort-order, fixed)
+  funcDefaults <impl|prefix> <perm> <ok|e<id>,…>       → compileFunc: id of the unsupported default that is reported, or none; the defaults map visited in
+                                                          order <perm>; `prefix` = the loop before its repair (C05-func-defaults-error-order, fixed)
+  convert <impl|prefix> <perm> <key=ok|key=e<id>,…>    → AsObjects/MapConverter/StructConverter: id of the conversion error reported, or none (convertSorted;
+                                                          `prefix` = preFixConvert, finding C05-conversion-error-order, fixed)
+  declSlots <impl|mapord> <perm/perm/…> <name,…> <name:alias,…;…> → the symbol table (names in slot order) after the declaring statements, starting from the
+                                                          given table, then per statement the operands of its stores (a.b.c/…); `mapord` = the forbidden variant
   setOrder <perm> <item,…>                             → positions (in the request) of the items in SortedItems order,
                                                           the map range visiting them in the order <perm>
   setIter <perm> <item,…>                              → the same for the items an iteration over the set yields
@@ -364,8 +371,51 @@ def handle : List String → String
       | [k, "ok"] => (k, some k)
       | k :: _ => (k, none)
       | [] => ("", none)
+    let m := applyOverridesSorted (applyPerm (parsePerm perm) l) AMap.empty
+    orDash (",".intercalate (sortedKeys ((l.map (·.1)).filter fun k => (m k).isSome)))
+  | ["overridesPreFix", perm, es] =>
+    let l := (if es = "-" then [] else es.splitOn ",").map fun (s : String) =>
+      match s.splitOn "=" with
+      | [k, "ok"] => (k, some k)
+      | k :: _ => (k, none)
+      | [] => ("", none)
     let m := applyOverrides (applyPerm (parsePerm perm) l) AMap.empty
     orDash (",".intercalate (sortedKeys ((l.map (·.1)).filter fun k => (m k).isSome)))
+  | ["funcDefaults", mode, perm, es] =>
+    let fl := if es = "-" then [] else es.splitOn ","
+    let params := (List.range fl.length).map fun i => s!"p{i}"
+    let vis := applyPerm (parsePerm perm) (params.zip fl)
+    let err := fun (s : String) => if s = "ok" then none else some s
+    match (if mode = "prefix" then preFixFuncDefaults err params vis else funcDefaults err params vis) with
+    | some e => e
+    | none => "none"
+  | ["convert", mode, perm, es] =>
+    let l := (if es = "-" then [] else es.splitOn ",").map fun (s : String) =>
+      match s.splitOn "=" with
+      | [k, v] => (k, v)
+      | k :: _ => (k, "ok")
+      | [] => ("", "ok")
+    let err := fun (k : String) => match l.lookup k with
+      | some "ok" => none
+      | some e => some e
+      | none => none
+    let vis := applyPerm (parsePerm perm) (l.map (·.1))
+    match (if mode = "prefix" then preFixConvert err vis else convertSorted err vis) with
+    | some e => e
+    | none => "none"
+  | ["declSlots", mode, perms, tab0, stmts] =>
+    let ps := (perms.splitOn "/").map parsePerm
+    let tab := if tab0 = "-" then [] else tab0.splitOn ","
+    let ss := (if stmts = "-" then [] else stmts.splitOn ";").map fun (t : String) =>
+      (if t = "-" then [] else t.splitOn ",").map fun (s : String) =>
+        match s.splitOn ":" with
+        | [k, v] => (k, v)
+        | k :: _ => (k, k)
+        | [] => ("", "")
+    let prog := (List.range ss.length).map fun i => (ps.getD i [], ss.getD i [])
+    let r := declProgram (if mode = "mapord" then declStmtMapOrdered else declStmt) prog tab
+    orDash (",".intercalate r.1) ++ "\t" ++
+      orDash ("/".intercalate (r.2.map fun ops => orDash (".".intercalate (ops.map toString))))
   | ["setOrder", perm, items] =>
     match parseKeys items with
     | some ks => positions ks (sortedItems (applyPerm (parsePerm perm) ks))
